@@ -1,16 +1,18 @@
-CONSTANT Tier = "thorough"
+CONSTANT Tier = "neg2"
 CONSTANT NProc = 3
 CONSTANT Buggy_PickleCarriesHash = FALSE
 CONSTANT Buggy_DigestUsesProcess = FALSE
-CONSTANT Buggy_SetstateByPosition = FALSE
-CONSTANT Buggy_ArgsBySetOrder = FALSE
-CONSTANT Buggy_DigestSkipsShared = FALSE
+CONSTANT Buggy_SetstateByPosition = TRUE
+CONSTANT Buggy_ArgsBySetOrder = TRUE
+CONSTANT Buggy_DigestSkipsShared = TRUE
 CONSTANT Buggy_CompiledLosesVars = FALSE
 INIT Init
 NEXT Next
+INVARIANT Inv_EqIsPyEq
 INVARIANT Inv_NoForeignHash
-INVARIANT Inv_UnpickledFindsLocal
+INVARIANT Inv_HashIsLocal
+INVARIANT Inv_LookupFinds
+INVARIANT Inv_CompiledComputes
 INVARIANT Inv_DigestIsStructural
 INVARIANT Inv_NothingRaised
-INVARIANT Emit
 CHECK_DEADLOCK FALSE
